@@ -72,6 +72,16 @@ func runSolver(ctx context.Context, sp solverSpec, file string, timeoutS int) so
 	_ = cmd.Run()
 	el := time.Since(start).Seconds()
 	text := out.String()
+	// solver warnings (e.g. about a rejected trigger) precede the answer: skip them
+	for strings.HasPrefix(strings.TrimSpace(text), "WARNING") {
+		t := strings.TrimSpace(text)
+		i := strings.IndexByte(t, '\n')
+		if i < 0 {
+			text = ""
+			break
+		}
+		text = t[i+1:]
+	}
 	first := strings.TrimSpace(text)
 	if i := strings.IndexByte(first, '\n'); i >= 0 {
 		first = strings.TrimSpace(first[:i])
@@ -189,7 +199,14 @@ func solveOne(file string, timeoutS int, which []solverSpec) solveResult {
 	}
 	timer := time.NewTimer(variantDelay)
 	defer timer.Stop()
+	// variant C (no entry-heap typing facts) joins after a short head start of the
+	// full formulation; only an "unsat" of it counts (its models may be ill-typed)
+	timerC := time.NewTimer(1500 * time.Millisecond)
+	defer timerC.Stop()
+	chC := make(chan solveResult, 1)
+	startedC := false
 	var first solveResult
+	gotFirst := false
 	for pending > 0 {
 		select {
 		case t := <-ch:
@@ -203,12 +220,29 @@ func solveOne(file string, timeoutS int, which []solverSpec) solveResult {
 			}
 			if !t.b {
 				first = t.r
+				gotFirst = true
 				startB()
+			}
+		case r := <-chC:
+			pending--
+			if r.status == "unsat" {
+				r.solver += "/nowf"
+				r.seconds = time.Since(start).Seconds()
+				return r
 			}
 		case <-timer.C:
 			startB()
+		case <-timerC.C:
+			if !startedC {
+				startedC = true
+				if fc := variantC(file); fc != "" {
+					pending++
+					go func() { chC <- portfolio(ctx, fc, timeoutS, which) }()
+				}
+			}
 		}
 	}
+	_ = gotFirst
 	return first
 }
 
